@@ -1,10 +1,11 @@
 import ArtapModel.Proofs.Bench
+import ArtapModel.Proofs.SixHump
 /-!
 # C15 — single-objective benchmarks: optimum where and as documented (theorems over ℝ)
 
 The formulas are the polymorphic definitions of `Model/Bench.lean` (the very terms the driver runs on
-`Float` against the implementation), read in `Num ℝ`.  For each of the fourteen families Sphere … XinSheYang3 and
-**every dimension `n`**:
+`Float` against the implementation), read in `Num ℝ`.  For each of the fifteen families Sphere … XinSheYang3,
+SixHump and **every dimension `n`** (SixHump: two parameters):
 
 * `F_at_opt` – the value at the documented coordinates is the documented optimum,
 * `F_bound`  – no point at all (in particular no point of the box) has a smaller value.
@@ -14,13 +15,19 @@ Guards are explicit, never totalisation: `1 ≤ n` / `xs ≠ []` where the code 
 through the model's table (`optCoords`, `optimum`, `eval`), i.e. with exactly the constants the
 harness compares with the implementation's `global_optimum`, `global_optimum_coords`.
 
-Partial (named `…_partial`): for SixHump, Synthetic1D, Synthetic2D, Synthetic5D, Synthetic10D only the value
+SixHump's documented constants are rounded (−1.0316 at (0.0898, −0.7126); true minimum −1.0316284535), so both of
+its clauses are stated to the documented precision: `sixHump_at_opt` (`|f(documented coordinates) − documented
+optimum| ≤ 10⁻³`) and `sixHump_bound` (`documented optimum − 10⁻³ ≤ f` at **every** real point; weighted AM–GM on
+the cross term with a different rational weight on three regions of `x²`, see `Proofs/SixHump.lean`).  It is not a
+member of `provedFamilies` (whose `table_at_opt` is an exact equality); `sixHump_table_at_opt` /
+`sixHump_table_bound` restate its two clauses through the table.
+
+Partial (named `…_partial`): for Synthetic1D, Synthetic2D, Synthetic5D, Synthetic10D only the value
 clause is proved (`|f(documented coordinates) − documented optimum| ≤ 10⁻³`).
 Not proved here (tested by dense search on the implementation — see `harness/c15.py`): the bound clause of
-those five, and both numeric clauses of Schwefel, Michalewicz (2, 5, 10), Schubert, GramacyLee (they need
-verified interval arithmetic for `sin`/`exp` on boxes, or an SOS certificate for the six-hump polynomial).
+those four, and both numeric clauses of Schwefel, Michalewicz (2, 5, 10), Schubert, GramacyLee (they need
+verified interval arithmetic for `sin`/`exp` on boxes).
 Full statements kept for the record:
-  -- theorem sixHump_bound (x y : ℝ) (hx : -3 ≤ x ∧ x ≤ 3) (hy : -2 ≤ y ∧ y ≤ 2) : -1.0316 - 1e-3 ≤ sixHump x y
   -- theorem schwefel_bound (xs) (h : ∀ c ∈ xs, -500 ≤ c ∧ c ≤ 500) : 0 - 1e-3 ≤ schwefel xs          (n ≤ 30)
   -- theorem schwefel_at_opt (n ≤ 30) : |schwefel (replicate n 420.9687) - 0| ≤ 1e-3
   -- theorem michalewicz_bound n ∈ {2,5,10}, xs ∈ [0,π]^n : opt n - 1e-3 ≤ michalewicz xs ;  michalewicz_at_opt (n = 2)
@@ -114,9 +121,35 @@ theorem xinSheYang3_envelope (eps xs : List ℝ) (he : ∀ e ∈ eps, e ≤ 1) :
 example : ∀ e ∈ ([1 / 2, 0, 1] : List ℝ), 0 ≤ e ∧ e ≤ 1 := by
   intro e he; simp at he; rcases he with rfl | rfl | rfl <;> norm_num
 
-/-! ## Six-hump camel back: value clause only (bound: tested, see header) -/
-theorem sixHump_at_opt_partial :
+/-! ## Six-hump camel back: both clauses to the documented precision 10⁻³ -/
+/-- value clause: `|f(0.0898, −0.7126) − (−1.0316)| ≤ 10⁻³` -/
+theorem sixHump_at_opt :
     |sixHump (898 / 10000 : ℝ) (-(7126 / 10000)) - (-(10316 / 10000))| ≤ 1 / 1000 := sixHump_documented
+/-- bound clause: no real point at all (in particular no point of the box `[−3,3]×[−2,2]`) has a value below
+the documented optimum −1.0316 by more than 10⁻³ -/
+theorem sixHump_bound (x y : ℝ) : -(10316 / 10000 : ℝ) - 1 / 1000 ≤ sixHump x y := sixHump_ge x y
+/-- the bound is tight to within 10⁻³: the documented point comes that close -/
+example : sixHump (898 / 10000 : ℝ) (-(7126 / 10000)) ≤ -(10316 / 10000) + 1 / 1000 := by
+  have h := abs_le.1 sixHump_documented
+  linarith [h.2]
+/-- the same two clauses through the model's table (`optCoords`, `optimum`, `eval`) -/
+theorem sixHump_table_at_opt (n : ℕ) (cs : List ℝ) (o : ℝ) (hc : optCoords .sixHump n = some cs)
+    (ho : optimum .sixHump n = some o) : ∃ v : ℝ, eval .sixHump cs = some v ∧ |v - o| ≤ 1 / 1000 := by
+  simp only [optCoords, optimum, Option.some.injEq] at hc ho
+  subst hc; subst ho
+  refine ⟨_, rfl, ?_⟩
+  have := sixHump_documented
+  simpa using this
+theorem sixHump_table_bound (n : ℕ) (xs : List ℝ) (o v : ℝ) (ho : optimum .sixHump n = some o)
+    (hv : eval .sixHump xs = some v) : o - 1 / 1000 ≤ v := by
+  simp only [optimum, Option.some.injEq] at ho; subst ho
+  match xs, hv with
+  | x :: y :: _, hv =>
+    simp only [eval, Option.some.injEq] at hv; subst hv
+    have := sixHump_ge x y
+    simp only [real_neg, rat_real]; push_cast; linarith
+example : eval .sixHump ([0, 0] : List ℝ) = some (sixHump 0 0) ∧
+    optimum .sixHump 2 = some (Num.neg (rat (10316 / 10000)) : ℝ) := ⟨rfl, rfl⟩
 
 /-! ## Synthetic 1D / 2D / 5D / 10D (maximised): value clause only (bound: tested, see header) -/
 /-- `|f(11) − 3.23| ≤ 10⁻³` (`exp(−9/2)`, `exp(−50/9)` from Taylor bounds, twelve tails below `2⁻¹⁸`) -/
